@@ -234,10 +234,21 @@ def _fold(run, e, ctx, env, module):
             except Exception:
                 return NOCONST
         if e.func.id == 'range':
-            vs = [_fold(run, x, ctx, env, module) for x in e.args]
+            vs = []
+            for x in e.args:
+                if isinstance(x, ast.Starred):          # range(*pair)
+                    sv = _fold(run, x.value, ctx, env, module)
+                    if sv is NOCONST or not isinstance(sv, (tuple, list)):
+                        return NOCONST
+                    vs.extend(sv)
+                else:
+                    vs.append(_fold(run, x, ctx, env, module))
             if NOCONST in vs:
                 return NOCONST
-            return range(*vs)
+            try:
+                return range(*vs)
+            except Exception:
+                return NOCONST
         if e.func.id in ('set', 'frozenset', 'tuple', 'list', 'bytes') and len(e.args) <= 1:
             if not e.args:
                 return {'set': set, 'frozenset': frozenset, 'tuple': tuple, 'list': list, 'bytes': bytes}[e.func.id]()
